@@ -1474,7 +1474,11 @@ def _make_slice(
             assert offset_clause is not None
             offset_clause = _offset_or_limit_clause(offset_clause)
 
-        limit_clause = _offset_or_limit_clause(stop - start)
+        length = stop - start
+        if isinstance(length, int) and length < 0:
+            # like range(), a stop before the start selects nothing
+            length = 0
+        limit_clause = _offset_or_limit_clause(length)
 
     elif start is None and stop is not None:
         limit_clause = _offset_or_limit_clause(stop)
